@@ -4,7 +4,7 @@ Monitor shape: invariant at a quiescent point.  The harness drives the real key 
 histories, takes what the library presents as public (or the default dict / JSON / repr / printed form of a
 private object) and scans it for every encoding of every secret involved (taint scan): complete object graph,
 pickle bytes, unpickled graph, deepcopy graph, repr, str, as_dict(), as_json(), captured info() output, and the
-raw bytes of the sqlite file written with DB_FIELD_ENCRYPTION_KEY set.  The taint set is built by the harness
+raw bytes of the sqlite file written with field encryption on (every documented configuration).  The taint set is built by the harness
 from the secret it chose (derived wallet keys via vf.refs.bip32), never from library output.
 """
 import io
@@ -28,6 +28,18 @@ ANCHORS = ['bitcoinlib/keys.py', 'bitcoinlib/wallets.py', 'bitcoinlib/db.py']
 DEPS = ()
 ENC_KEY = '6b1d0c5e9f3a4277a1b2c3d4e5f60718293a4b5c6d7e8f90a1b2c3d4e5f60799'
 REPLAY_ENV = {'DB_FIELD_ENCRYPTION_KEY': ENC_KEY}
+ENC_PASSWORD = 'c16 harness field-encryption password'
+# every documented way of switching field encryption on (docs/_static/manuals.sqlcipher.rst, data/config.ini); the variables
+# are read when bitcoinlib.config is imported, so every configuration runs in a process of its own
+ATREST_MODES = {
+    'key': {'env': {'DB_FIELD_ENCRYPTION_KEY': ENC_KEY}},
+    'password': {'env': {'DB_FIELD_ENCRYPTION_PASSWORD': ENC_PASSWORD}},
+    'key+password': {'env': {'DB_FIELD_ENCRYPTION_KEY': ENC_KEY, 'DB_FIELD_ENCRYPTION_PASSWORD': ENC_PASSWORD}},
+    'key+config': {'env': {'DB_FIELD_ENCRYPTION_KEY': ENC_KEY}, 'config': True},
+    'password+config': {'env': {'DB_FIELD_ENCRYPTION_PASSWORD': ENC_PASSWORD}, 'config': True},
+    'control': {'env': {}},
+}
+ENC_MODES = [m for m in ATREST_MODES if m != 'control']
 RULE = ('a case = (private object kind + how it was imported + network/compression/witness type, HISTORY of prior '
         'calls on the private object, public view or default form taken afterwards); each case scans object graph, '
         'pickle bytes, unpickled + deep-copied graph, repr, str, as_dict, as_json, info() for all encodings of the '
@@ -1295,13 +1307,17 @@ def scan_file(taint, path):
 
 def run_atrest_case(case, col):
     """Several wallets in one sqlite file; close everything; scan the raw file bytes."""
-    import bitcoinlib.db as bdb
-    encrypted = bool(case['encrypted'])
-    active = bdb.EncryptedBinary.key is not None
-    if encrypted and not os.environ.get('DB_FIELD_ENCRYPTION_KEY'):
-        col.note_inconclusive('at-rest case needs DB_FIELD_ENCRYPTION_KEY in the worker environment')
+    mode = _atrest_mode(case)
+    encrypted = mode != 'control'
+    if not _env_matches_mode(mode):
+        col.note_inconclusive('at-rest case of mode %s needs its own process environment' % mode)
         return
-    if not encrypted and (active or os.environ.get('DB_FIELD_ENCRYPTION_KEY')):
+    import bitcoinlib.db as bdb
+    import bitcoinlib.config.config as bcfg
+    if ATREST_MODES[mode].get('config') and not bcfg.DATABASE_ENCRYPTION_ENABLED:
+        col.note_inconclusive('mode %s: config.ini database_encryption_enabled was not picked up' % mode)
+        return
+    if not encrypted and bdb.EncryptedBinary.key is not None:
         col.note_inconclusive('control case must run without field encryption')
         return
     ddir = os.environ.get('BCL_DATA_DIR') or '.'
@@ -1329,14 +1345,16 @@ def run_atrest_case(case, col):
         del wallets
         _close_all()
     kinds = sorted({wc['wtype'] for wc in case['wallets']})
-    col.case('atrest/%s/%s' % ('encrypted' if encrypted else 'control-plaintext', '+'.join(kinds)),
-             nontrivial=('atrest', encrypted, tuple((wc['wtype'], wc['network'], wc['witness_type'], tuple(wc['history'])) for wc in case['wallets'])),
+    col.case('atrest/%s/%s' % (('encrypted-' + mode) if encrypted else 'control-plaintext', '+'.join(kinds)),
+             nontrivial=('atrest', mode, tuple((wc['wtype'], wc['network'], wc['witness_type'], tuple(wc['history'])) for wc in case['wallets'])),
              sample=case)
     files = [db_path + s for s in ('', '-journal', '-wal', '-shm') if os.path.exists(db_path + s)]
     all_hits = []
     for p in files:
         hits, size = scan_file(taint, p)
         col.probe('dbfile_scan_encrypted' if encrypted else 'dbfile_scan_control')
+        if encrypted:
+            col.probe('dbfile_scan_encrypted/' + mode)
         col.probe('dbfile_bytes', size)
         all_hits += [{'path': os.path.basename(p)[len(os.path.basename(db_path)):] or 'main', 'enc': e, 'label': l, 'where': 'sqlite'} for e, l in hits]
     if encrypted:
@@ -1344,7 +1362,9 @@ def run_atrest_case(case, col):
         if n_priv == 0:
             col.note_inconclusive('encrypted at-rest case stored no private key rows')
         if all_hits:
-            report(col, None, 'sqlite file written with DB_FIELD_ENCRYPTION_KEY', case, 'database file', 'raw-bytes', all_hits,
+            report(col, None, 'sqlite file written with field encryption on (mode %s: %s%s)' % (
+                mode, '+'.join(sorted(ATREST_MODES[mode]['env'])), ' + config.ini flag' if ATREST_MODES[mode].get('config') else ''),
+                   case, 'database file', 'raw-bytes', all_hits,
                    'no private key / WIF readable in plaintext')
     else:
         # control: the scanner must find the raw key and an extended/WIF form of the stored private rows
@@ -1375,8 +1395,32 @@ def run_atrest_case(case, col):
             pass
 
 
-def gen_atrest_case(rnd, encrypted):
-    ws = [gen_wallet_case(rnd, 'hd', 4), gen_wallet_case(rnd, 'single', 3), gen_wallet_case(rnd, 'multisig', 3)]
+def _atrest_mode(case):
+    m = case.get('mode')
+    if m is None:
+        m = 'key' if case.get('encrypted') else 'control'
+    return m
+
+
+def _env_matches_mode(mode):
+    want = ATREST_MODES[mode]['env']
+    for var in ('DB_FIELD_ENCRYPTION_KEY', 'DB_FIELD_ENCRYPTION_PASSWORD'):
+        if (os.environ.get(var) or None) != want.get(var):
+            return False
+    return True
+
+
+def write_config_ini(ddir):
+    """config.ini is read from BCL_DATA_DIR when bitcoinlib.config is imported (before the library copies its defaults)."""
+    with open(os.path.join(ddir, 'config.ini'), 'w') as f:
+        f.write('[common]\ndatabase_encryption_enabled=True\n')
+
+
+def gen_atrest_case(rnd, mode):
+    if mode is True or mode is False:
+        mode = 'key' if mode else 'control'
+    ws = [gen_wallet_case(rnd, 'hd', 4), gen_wallet_case(rnd, 'single', 3), gen_wallet_case(rnd, 'multisig', 3),
+          gen_wallet_case(rnd, rnd.choice(['hd_account', 'multisig_account']), 3)]
     if rnd.random() < 0.5:
         ws.append(gen_wallet_case(rnd, 'hd', 5))
     for wc in ws:
@@ -1386,7 +1430,7 @@ def gen_atrest_case(rnd, encrypted):
     if 'import_key' not in ws[0]['history']:
         ws[0]['history'].insert(0, 'import_key')
         ws[0]['import_secret'] = '%064x' % gen_secret(rnd)
-    return {'kind': 'atrest', 'encrypted': encrypted, 'wallets': ws}
+    return {'kind': 'atrest', 'mode': mode, 'encrypted': mode != 'control', 'wallets': ws}
 
 
 # ------------------------------------------------------------------ plan / shards / replay
@@ -1433,11 +1477,66 @@ def replay(case, col):
     if not _prepare(col):
         return
     case = {k: v for k, v in case.items() if k not in ('view', 'form')}
-    if case.get('kind') == 'atrest' and not case.get('encrypted'):
-        # the replay worker carries REPLAY_ENV; a control case cannot be replayed there
-        col.note_inconclusive('control cases are not violations and are not replayable under REPLAY_ENV')
+    if case.get('kind') == 'atrest' and (not _env_matches_mode(_atrest_mode(case)) or ATREST_MODES[_atrest_mode(case)].get('config')):
+        # the replay worker carries REPLAY_ENV (key mode); every other configuration is replayed in a child process
+        _atrest_in_child(case, col)
         return
     run_case(case, col)
+
+
+def _atrest_in_child(case, col):
+    """Run one at-rest case in a child process whose environment / config.ini switch encryption on the way the case says."""
+    import sys
+    import json
+    import subprocess
+    from vf.collect import jsonable
+    mode = _atrest_mode(case)
+    ddir = os.path.join(os.environ.get('BCL_DATA_DIR') or '.', 'c16-child-%d-%d' % (os.getpid(), next(_uniq)))
+    os.makedirs(ddir, exist_ok=True)
+    env = dict(os.environ)
+    env.pop('DB_FIELD_ENCRYPTION_KEY', None)
+    env.pop('DB_FIELD_ENCRYPTION_PASSWORD', None)
+    env.update(ATREST_MODES[mode]['env'])
+    env['BCL_DATA_DIR'] = ddir
+    cpath, opath = os.path.join(ddir, 'case.json'), os.path.join(ddir, 'result.json')
+    with open(cpath, 'w') as f:
+        json.dump(jsonable(case), f)
+    try:
+        p = subprocess.run([sys.executable, '-m', 'vf.props.c16', cpath, opath], env=env, stdout=subprocess.PIPE,
+                           stderr=subprocess.STDOUT, timeout=1500)
+    except subprocess.TimeoutExpired:
+        col.note_inconclusive('at-rest child process hit the watchdog')
+        return
+    if not os.path.exists(opath):
+        col.note_inconclusive('at-rest child process gave no result: %s' % p.stdout.decode(errors='replace')[-600:])
+        return
+    res = json.load(open(opath))
+    for k, n in res['probes'].items():
+        col.probe(k, n)
+    for r in res['inconclusive']:
+        col.note_inconclusive(r)
+    for key, ent in res['violations'].items():
+        for w in ent['witnesses']:
+            col.violation(key, w['desc'], w['case'], w['observed'], w['expected'])
+    for w in res['unkeyed']:
+        col.violation(None, w['desc'], w['case'], w['observed'], w['expected'])
+    col.evaluations += res['evaluations']
+
+
+def _child_main(argv):
+    import json
+    from vf.collect import Collector
+    case = json.load(open(argv[1]))
+    col = Collector(ID, 'quick', 0)
+    try:
+        if ATREST_MODES[_atrest_mode(case)].get('config'):
+            write_config_ini(os.environ['BCL_DATA_DIR'])
+        if _prepare(col):
+            run_atrest_case(case, col)
+    except BaseException as e:
+        col.note_inconclusive('at-rest child raised %r' % (e,))
+    with open(argv[2], 'w') as f:
+        json.dump(col.dump(), f)
 
 
 def _histories(names, maxlen, skip_long=()):
@@ -1460,11 +1559,13 @@ def plan(tier, seed, scale=1.0):
     for i in range(nw):
         specs.append({'part': 'wallets', 'shard': 100 + i, 'n_wallets': max(1, int((800 if thorough else 36) * scale / nw)),
                       'timeout': 3 * 3600 if thorough else 600})
-    na = 4 if thorough else 1
+    na = 2 if thorough else 1
     for i in range(na):
-        specs.append({'part': 'atrest', 'shard': 200 + i, 'encrypted': True, 'n_cases': max(1, int((6 if thorough else 2) * scale)),
-                      'env': {'DB_FIELD_ENCRYPTION_KEY': ENC_KEY}, 'timeout': 3 * 3600 if thorough else 600})
-        specs.append({'part': 'atrest', 'shard': 300 + i, 'encrypted': False, 'n_cases': max(1, int((2 if thorough else 1) * scale)),
+        for j, mode in enumerate(ENC_MODES):
+            specs.append({'part': 'atrest', 'shard': 200 + 10 * j + i, 'mode': mode, 'n_cases': max(1, int((5 if thorough else 1) * scale)),
+                          'env': dict(ATREST_MODES[mode]['env']), 'config_ini': bool(ATREST_MODES[mode].get('config')),
+                          'timeout': 3 * 3600 if thorough else 600})
+        specs.append({'part': 'atrest', 'shard': 300 + i, 'mode': 'control', 'n_cases': max(1, int((2 if thorough else 1) * scale)),
                       'timeout': 3 * 3600 if thorough else 600})
     return specs
 
@@ -1474,8 +1575,10 @@ def run_shard(spec, col):
               'as_json_scan', 'info_scan', 'history_op', 'wallet_history_op', 'wallet_export_scan', 'wallet_wif_export_scan',
               'reopened_wallet_scan', 'dbkey_repr_scan',
               'walletkey_default_scan', 'tx_default_forms', 'dbfile_scan_encrypted', 'dbfile_scan_control',
-              'dbfile_control_found_raw', 'dbfile_control_found_text', 'atrest_private_rows'):
+              'dbfile_control_found_raw', 'dbfile_control_found_text', 'atrest_private_rows') + tuple('dbfile_scan_encrypted/' + m for m in ENC_MODES):
         col.require(p)
+    if spec.get('config_ini'):
+        write_config_ini(os.environ['BCL_DATA_DIR'])      # before the first import of bitcoinlib
     if not _prepare(col):
         return
     rnd = random.Random('%s-%d-%d' % (ID, spec['seed'], spec['shard']))
@@ -1509,4 +1612,9 @@ def run_shard(spec, col):
             run_wallet_case(case, col)
     elif part == 'atrest':
         for _ in range(spec['n_cases']):
-            run_atrest_case(gen_atrest_case(rnd, spec['encrypted']), col)
+            run_atrest_case(gen_atrest_case(rnd, spec.get('mode', 'key' if spec.get('encrypted') else 'control')), col)
+
+
+if __name__ == '__main__':
+    import sys as _sys
+    _child_main(_sys.argv)
